@@ -8,7 +8,15 @@
    ALL interleavings of the recorded writes and judges every terminal state with the property layer, together
    with the projections made on the real output (sync column bit-exact, length, rms rows, saturation entries,
    data within 1 LSB of batch-wise in-memory destriping).
-4. byte identity across worker counts (same input, same options).
+4. byte identity across worker counts (same input, same options) - and across what else must not matter: the input as
+   .bin or as .cbin (compressed in chunks much shorter than a batch), str / Path arguments, the default output name,
+   a separate folder for the quality files, what an earlier run left under the names the call writes.
+5. state and configuration dimensions rotated over the real runs (c06_run.py, `decorate`): leftovers {none, longer,
+   same sizes, interrupted run, a really failed call}, append onto the output of ANOTHER recording (other length, batch
+   size, worker count, padding) and chains of three runs, nc_out without the sync column, float32 output, an explicit
+   trace header, other probe kinds, batch sizes that are odd / no multiple of 1024 (TLC's tuple export), whitening
+   matrices as float32 / non-contiguous read-only views.  Everything is judged by the same clauses; a call that raises
+   (in a worker, before or after the fan-out) is NoCrash false; bytes that are no whole rows are FinalFileCanonical false.
 """
 import copy
 import json
@@ -23,7 +31,7 @@ from pathlib import Path
 from vkit import tlc, tracecheck
 
 VERIF = Path(__file__).resolve().parents[1]
-ROW = 385 * 2
+ROW = 385 * 2          # default row size; rowbytes(sc) for runs with nc_out / dtype options
 T = 1024
 
 
@@ -52,19 +60,31 @@ def run_real(ctx, sc, idx):
     return res
 
 
+def rowbytes(sc):
+    return (sc.get("nc_out") or 385) * (4 if sc.get("odtype") == "float32" else 2)
+
+
+def lastb_of(ns, nb):
+    return 0 if ns <= nb else -(-(ns - nb) // (nb - 2 * T))
+
+
 def to_trace(sc, res, k):
     """hook events of run k of a scenario -> record for DestripeFileTrace (row units)"""
-    r = res["runs"][k]
-    ns, pad = sc["ns"], sc.get("ns2add", 0)
-    off = k * (ns + pad)
-    nb = sc["nbatch"]
-    lastb = 0 if ns <= nb else -(-(ns - nb) // (nb - 2 * T))
-    rms_off_rows = k * (lastb + 1)     # rows of the previous (canonical) run; only used to make row ids relative
-    workers = [[] for _ in range(sc["nproc"])]
+    runs = res["runs"]
+    r = runs[k]
+    ROW = rowbytes(sc)
+    # parameters of this call (an append scenario may start with a call on another recording)
+    ns, nb, npx, pad = r.get("ns", sc["ns"]), r.get("nbatch", sc["nbatch"]), r.get("nproc", sc["nproc"]), \
+        r.get("ns2add", sc.get("ns2add", 0))
+    off = sum(x.get("ns", sc["ns"]) + x.get("ns2add", sc.get("ns2add", 0)) for x in runs[:k])
+    lastb = lastb_of(ns, nb)
+    # rows of the previous (canonical) runs; only used to make row ids relative
+    rms_off_rows = sum(lastb_of(x.get("ns", sc["ns"]), x.get("nbatch", sc["nbatch"])) + 1 for x in runs[:k])
+    workers = [[] for _ in range(npx)]
     by_w = {}
     for e in r["events"]:
         by_w.setdefault(e["worker"], []).append(e)
-    for w in range(sc["nproc"]):
+    for w in range(npx):
         evs = sorted(by_w.get(w, []), key=lambda e: e["seq"])
         out = workers[w]
         i = 0
@@ -80,13 +100,17 @@ def to_trace(sc, res, k):
                 i += 2 if seek else 1
                 continue
             if e["ev"] == "WriteBatch":
+                # ragged: the bytes written are not `rows` whole rows starting at a row boundary of the output
                 ev = {"ev": "Write", "s0": e["first_s"], "s1": e["last_s"], "p0": e["pos_before"] // ROW,
                       "rows": e["rows"], "i0": e["ind2save"][0],
-                      "rmsrow": e["rms_pos"] // (384 * 4) - 1 - rms_off_rows, "padrows": 0, "padpos": 0, "done": False}
+                      "rmsrow": e["rms_pos"] // (384 * 4) - 1 - rms_off_rows, "padrows": 0, "padpos": 0, "done": False,
+                      "ragged": bool(e["pos_before"] % ROW or e["pos_after"] - e["pos_before"] != e["rows"] * ROW)}
                 j = i + 1
                 if j < len(evs) and evs[j]["ev"] == "Pad":
                     ev["padrows"] = evs[j]["rows"]
                     ev["padpos"] = evs[j]["pos_before"] // ROW
+                    if evs[j]["pos_before"] % ROW or evs[j]["pos_after"] - evs[j]["pos_before"] != evs[j]["rows"] * ROW:
+                        ev["ragged"] = True
                     j += 1
                 if j < len(evs) and evs[j]["ev"] == "WorkerDone":
                     ev["done"] = True
@@ -98,25 +122,83 @@ def to_trace(sc, res, k):
             i += 1
         if not ended:
             out.append({"ev": "Crash"})
+    ok = not any(x["exc"] for x in runs)
+    nruns = len(runs)
+    last = k == nruns - 1
+    # observations made on the final files: attributed to every call of the scenario (to the last one only when the
+    # calls are of different recordings: the saturation file then has the last recording's length)
+    fin = ok and (last or not sc.get("prev"))
     lsb = -1
-    if "max_lsb_diff" in res and k == 0:
+    if "max_lsb_diff" in res and last:          # the comparison is made on the block of the scenario's own (last) call
         lsb = int(-(-(res["max_lsb_diff"] - 1e-6) // 1))
-    ok = not any(x["exc"] for x in res["runs"])
-    nruns = len(res["runs"])
     # few workers: all interleavings; many: worker orders in which every worker finishes last once (+ recorded order)
     nev = sum(len(w) for w in workers)
-    npx = sc["nproc"]
     if npx <= 4 and nev <= 14:
         orders = []
     else:
         base = list(range(npx))
         orders = [base[i + 1:] + base[:i + 1] for i in range(npx)] + [base[::-1]]
-    return {"ns": ns, "NB": nb, "np": sc["nproc"], "pad": pad, "off": off, "workers": workers, "orders": orders,
-            "realsize": (res["rows"] if k == nruns - 1 else -1) if ok else -1,
-            "realrms": (res["rms_rows"] - rms_off_rows if k == nruns - 1 else -1) if ok else -1,
-            "syncbad": res.get("n_sync_bad", 0) if ok else 0, "satlen": res.get("sat_len", ns) if ok else ns,
-            "padbad": res.get("pad_bad", 0) if ok else 0, "appendbad": res.get("append_bad", 0) if ok else 0,
+    # size of the real file after this call (a size that is no whole number of rows is no admissible length: 0)
+    realsize = -1
+    if not r["exc"] and r.get("size_rows", -1) >= 0:
+        realsize = r["size_rows"] if r.get("size_exact", True) else 0
+    if ok and last:
+        realsize = res["rows"] if res.get("size_exact", True) else 0
+    # one entry per batch in both quality files of the pair (rms, timestamps): report the one that deviates
+    realrms = -1
+    if ok and last:
+        cands = [res["rms_rows"] - rms_off_rows, res.get("time_rows", res["rms_rows"]) - rms_off_rows]
+        realrms = next((c for c in cands if c != lastb + 1), cands[0])
+        realrms = max(realrms, 0)
+    return {"ns": ns, "NB": nb, "np": npx, "pad": pad, "off": off, "workers": workers, "orders": orders,
+            "raised": bool(r["exc"]),
+            "realsize": realsize, "realrms": realrms,
+            "syncbad": res.get("n_sync_bad", 0) if fin else 0,
+            "satlen": res.get("sat_len", ns) if fin else ns,
+            "padbad": res.get("pad_bad", 0) if fin else 0,
+            "appendbad": res.get("append_bad", 0) if fin else 0,
             "lsb": max(lsb, 0)}
+
+
+STALE = [False, "longer", "same", "ragged"]
+OPTS = ("form", "paths", "outdef", "qcdir", "nc_out", "odtype", "hexp", "kind", "prev", "nruns", "k_filter", "reject", "wrot")
+
+
+def decorate(ctx, s, j):
+    """state and configuration dimensions that must not change any clause (see c06_run.py), rotated with the seed"""
+    s["form"] = "cbin" if j % 3 == 1 else "bin"
+    s["paths"] = "str" if j % 2 == 0 else "path"
+    s["outdef"] = s["form"] == "cbin" and j % 6 == 4
+    s["qcdir"] = j % 5 == 2
+    s["stale"] = STALE[j % 4] if ctx.quick else (STALE + [False, "longer", "failed", "ragged"])[j % 8]
+    if j % 9 == 4:
+        s["kind"] = "NP2.4"
+    elif j % 9 == 8:
+        s["kind"] = ["3A", "NP2.1"][(j // 9) % 2]
+    elif j % 4 == 3:
+        s["hexp"] = True                            # a trace header passed explicitly
+    if s.get("kind") or s.get("hexp"):
+        s["compare"] = True                         # both are visible in the data columns only
+
+
+def writers(s):
+    """number of workers that write at least one batch (the others return at the guard): the row size of the output
+    only enters the seek of a worker other than the first one"""
+    ns, nb, npx = s["ns"], s["nbatch"], s["nproc"]
+    ch, st = ns // npx, nb - 2 * T
+    return sum(1 for w in range(npx) if w == 0 or not (-(-(w * ch) // nb) * st + 2 * T >= ns))
+
+
+def row_formats(ctx, scs):
+    """output rows without the sync column (nc_out=384) / of float32 samples, on runs with several writing workers"""
+    cands = [s for s in scs if writers(s) >= 2 and not s.get("prev")] or scs
+    step = len(cands) if ctx.quick else 7
+    for k, s in enumerate(cands):
+        if (k + ctx.seed) % step == 0:
+            s["nc_out"] = 384                       # positions judged by the recorded writes and the comparison with
+            s["compare"] = True                     # batch-wise destriping
+        elif (k + ctx.seed) % step == (3 if not ctx.quick else len(cands) // 2):
+            s["odtype"] = "float32"
 
 
 def choose(ctx, tuples):
@@ -140,10 +222,13 @@ def choose(ctx, tuples):
         scs = hz + no
     # mutation-aware selection: tuples at which a plausible slip in the worker arithmetic (TLC: Sens) would break the property
     muts = sorted({m for t in tuples for m in t["sens"]})
-    for m in muts:
+    for im, m in enumerate(muts):
         ts = sorted([t for t in tuples if m in t["sens"] and t["np"] >= 2], key=lambda t: (len(t["sens"]), t["ns"], t["nb"], t["np"]))
         rnd.shuffle(ts)
         ts = sorted(ts, key=lambda t: len(t["sens"]))          # prefer tuples that single out this variant
+        # batch sizes of both kinds: every second variant is run at an odd batch size / one that is no multiple of 1024
+        if (im + ctx.seed) % 2 == 0:
+            ts = sorted(ts, key=lambda t: t["nb"] % 1024 == 0)  # stable: keeps the preference order within each kind
         for t in ts[:1 if ctx.quick else 5]:
             scs.append({"ns": t["ns"], "nbatch": t["nb"], "nproc": t["np"], "cls": f"sens:{m}"})
     # options: most runs plain (car, no rejection: cheap), a few with each option
@@ -170,8 +255,23 @@ def choose(ctx, tuples):
             s["ns2add"] = 5
             s["append"] = True
         elif m == 7:
-            s["wrot"] = f"matrix:{s['seed']}"       # a full, non-symmetric whitening matrix
+            # a full, non-symmetric whitening matrix: float64 / float32 / a non-contiguous read-only view
+            s["wrot"] = f"{['matrix', 'matrix32', 'matrixF'][(i // 8 + ctx.seed) % 3]}:{s['seed']}"
             s["compare"] = True
+        decorate(ctx, s, i + ctx.seed)
+        if m == 6 and (i // 8 + ctx.seed) % 2 == 0 or m == 2 and (i // 8 + ctx.seed) % 2 == 1:
+            # chronic recordings: appended to the output of an earlier call on ANOTHER recording (other length, batch size,
+            # worker count, padding), not to a copy of itself
+            small = sorted([t for t in tuples if t["ns"] <= 8192 and (t["ns"], t["nb"]) != (s["ns"], s["nbatch"])],
+                           key=lambda t: (t["ns"], t["nb"], t["np"]))
+            t = small[(97 * i + 131 * ctx.seed) % len(small)]
+            s["prev"] = {"ns": t["ns"], "nbatch": t["nb"], "nproc": t["np"], "ns2add": [3, 0][(i // 8) % 2],
+                         "seed": s["seed"] + 333}
+            s["compare"] = True
+            s["outdef"] = False                     # the default output name belongs to the input: one name per recording
+        elif m == 2 and not ctx.quick and ((i // 8 + ctx.seed) // 2) % 2 == 0:
+            s["nruns"] = 3                          # a chain of three runs of the same recording
+    row_formats(ctx, scs)
     # rejection needs >= 0.3 s of data: two dedicated runs
     extra = [{"ns": 9100, "nbatch": 4096, "nproc": 3, "reject": True, "k_filter": True, "compare": True},
              {"ns": 10240, "nbatch": 5120, "nproc": 5, "reject": True, "k_filter": False, "compare": True}]
@@ -180,17 +280,29 @@ def choose(ctx, tuples):
                   {"ns": 13000, "nbatch": 4096, "nproc": 2, "reject": True, "k_filter": True, "compare": False, "ns2add": 11}]
     for j, e in enumerate(extra[:1] if ctx.quick else extra):
         e = dict({"seed": ctx.seed * 1000 + 500 + j, "ns2add": 0, "append": False, "sat": [], "wrot": None,
-                  "cls": "reject", "stale": j % 2 == 0}, **e)
+                  "cls": "reject", "stale": STALE[(j + 1 + ctx.seed) % 4]}, **e)
+        e.update(form=["bin", "cbin"][(j + ctx.seed) % 2], paths=["path", "str"][j % 2], qcdir=(j + ctx.seed) % 3 == 0)
         scs.append(e)
     # byte identity across worker counts: same input (seed), different nproc
     base = {"ns": 7000, "nbatch": 3072, "reject": False, "k_filter": False, "ns2add": 0, "append": False, "sat": [],
             "compare": False, "wrot": None, "seed": ctx.seed * 1000 + 900, "cls": "identity"}
+    # ... and across everything else that must not matter: the form of the input, the argument types, where the output
+    # and the quality files go, what an earlier run left there
+    def member(b, npx, group):
+        j = npx + ctx.seed
+        form = ["bin", "cbin"][j % 2]
+        return dict(b, nproc=npx, group=group, stale=STALE[j % 4], form=form, paths=["str", "path"][(j // 2) % 2],
+                    outdef=form == "cbin" and j % 4 == 1, qcdir=j % 3 == 0)
     for npx in ([1, 2, 5] if ctx.quick else [1, 2, 3, 4, 5, 6, 7, 8]):
-        scs.append(dict(base, nproc=npx, group="id7000", stale=npx % 2 == 0))
+        scs.append(member(base, npx, "id7000"))
     if not ctx.quick:
         b2 = dict(base, ns=5000, nbatch=4096, seed=ctx.seed * 1000 + 901)
         for npx in [1, 2, 3, 4, 6, 8]:
-            scs.append(dict(b2, nproc=npx, group="id5000"))
+            scs.append(member(b2, npx, "id5000"))
+        # an odd batch size, k-filter, floating point output
+        b3 = dict(base, ns=7001, nbatch=3073, k_filter=True, odtype="float32", seed=ctx.seed * 1000 + 902)
+        for npx in [1, 3, 4, 7]:
+            scs.append(member(b3, npx, "id7001"))
     return scs
 
 
@@ -225,8 +337,9 @@ def judge(ctx, scs, results):
     for v in verdicts:
         i, k = owner[v["index"]]
         sc = scs[i]
+        opts = {o: sc[o] for o in OPTS if sc.get(o)}
         desc = (f"ns={sc['ns']} nbatch={sc['nbatch']} nproc={sc['nproc']} ns2add={sc['ns2add']} append={sc['append']} "
-                f"leftovers={bool(sc.get('stale'))} run={k}")
+                f"leftovers={sc.get('stale') or False} run={k}" + (f" {opts}" if opts else ""))
         if v["prop"]:
             exc = results[i]["runs"][k]["exc"]
             ctx.violation("destripe:" + v["prop"].split("(")[0],
@@ -252,7 +365,8 @@ def run(ctx):
     with ThreadPoolExecutor(max_workers=4 if ctx.quick else 5) as ex:
         results = list(ex.map(lambda a: run_real(ctx, a[1], a[0]), enumerate(scs)))
     for sc, res in zip(scs, results):
-        ctx.count(1, key=(sc["ns"], sc["nbatch"], sc["nproc"], sc["ns2add"], sc["append"], sc["k_filter"], sc["reject"]))
+        ctx.count(1, key=(sc["ns"], sc["nbatch"], sc["nproc"], sc["ns2add"], sc["append"], sc["k_filter"], sc["reject"],
+                          json.dumps({o: sc[o] for o in OPTS + ("stale",) if sc.get(o)}, sort_keys=True)))
     traces = judge(ctx, scs, results)
     # byte identity across worker counts
     groups = {}
@@ -269,7 +383,7 @@ def run(ctx):
         "runs_compared": sum(1 for r in results if "max_lsb_diff" in r)}
     for sc, res in list(zip(scs, results))[:3]:
         ctx.sample({"scenario": {k: v for k, v in sc.items() if k != "dir"},
-                    "writes": [[e["worker"], e["first_s"], e["last_s"], e["pos_before"] // ROW, e["rows"]]
+                    "writes": [[e["worker"], e["first_s"], e["last_s"], e["pos_before"] // rowbytes(sc), e["rows"]]
                                for e in res["runs"][0]["events"] if e["ev"] == "WriteBatch"],
                     "rows": res.get("rows"), "rms_rows": res.get("rms_rows")})
     selftest(ctx, traces)
@@ -283,7 +397,8 @@ def run(ctx):
 
 def selftest(ctx, traces):
     """corrupt accepted traces: shift one write by a row, drop a write, relabel a write's batch -> must be flagged"""
-    good = [t for t in traces if sum(len(w) for w in t["workers"]) >= 4][:6]
+    good = [t for t in traces if sum(len(w) for w in t["workers"]) >= 4 and not t["raised"]
+            and any(e["ev"] == "Write" for w in t["workers"] for e in w)][:6]
     if len(good) < 2:
         raise tlc.TLCError("selftest: no multi-write traces")
     mut = []
